@@ -6,6 +6,7 @@ from ..runner import Outcome
 from . import c11
 
 LEVEL = "proof"
+TRUSTED_EXTRA = ["translator verif/gen_bodies.py (Python ast -> PyIR terms, purely syntactic)", "PyIR interpreter (lean/MafModel/MafModel/PyIR/Interp.lean), validated on every run against the real AlleleOverlapType.equality / intersects / subset (body.allele)"]
 ASSUMPTIONS = ["positional groups are C11's; this property is about the allele filter on top of them"]
 RELS = ["Equality", "Intersects", "Subset"]
 ALTS = [[], ["C"], ["G"], ["C", "G"], ["G", "C"], ["C", "G", "T"], ["T"], [""], ["C", "C"], ["G", "C", "G"]]      # (a list may repeat an allele: the relations are set relations)     # [""]: a blank allele column is one (empty) allele
@@ -197,6 +198,11 @@ def run(ctx):
     two_pass_cases(ctx, out)
     interleaved_cases(ctx, out)
     long_gap_cases(ctx, out)
+    # the translated relations, interpreted, against the real class methods (Props/C12Bodies proves the interpreted bodies
+    # equal to the model's AlleleRel.test for all lists)
+    from .. import bodycases
+    bodycases.allele_cases(ctx, out)
+    bodycases.translation_report(ctx, out)
     return out
 
 
